@@ -6,6 +6,7 @@ import (
 	"fmt"
 	"os"
 	"path/filepath"
+	"strings"
 
 	blocks "github.com/ipfs/go-block-format"
 	"github.com/ipfs/go-cid"
@@ -93,6 +94,26 @@ func c16Open(target, dir string, roots []cid.Cid, cfg lab.Cfg, faults []iofault.
 		s.tap.SetFaults(faults)
 		s.pathTap = true
 		s.dw = deferred.NewDeferredCarWriterForPath(s.path, roots, cfg.Opts()...)
+	case "storage-rw-resumed":
+		// the session resumes a file an earlier session left behind (discarded, or finalized when the
+		// configuration says Sorted): the blocks of that session are acknowledged blocks too
+		s.mf = iofault.New(c16FirstGen(roots, cfg))
+		s.mf.SetFaults(faults)
+		s.scr, err = storage.OpenReadableWritable(s.mf, roots, cfg.Opts()...)
+		s.sc = s.scr
+	case "blockstore-resumed":
+		s.path = filepath.Join(dir, "bsr.car")
+		if werr := os.WriteFile(s.path, c16FirstGen(roots, cfg), 0o644); werr != nil {
+			panic(werr)
+		}
+		s.f, err = os.OpenFile(s.path, os.O_RDWR, 0o666)
+		if err != nil {
+			panic(err)
+		}
+		s.tap = iofault.Tap(s.f)
+		s.tap.SetFaults(faults)
+		s.roFirst = len(faults) > 0 && faults[0].Keep%2 == 0
+		s.bs, err = blockstore.OpenReadWriteFile(s.f, roots, cfg.Opts()...)
 	case "blockstore", "blockstore-many":
 		s.path = filepath.Join(dir, "bs.car")
 		os.Remove(s.path)
@@ -106,6 +127,37 @@ func c16Open(target, dir string, roots []cid.Cid, cfg lab.Cfg, faults []iofault.
 		s.bs, err = blockstore.OpenReadWriteFile(s.f, roots, cfg.Opts()...)
 	}
 	return s, err
+}
+
+// c16Pre: the blocks of the earlier session that a "-resumed" target starts from.
+func c16Pre() []refcar.Block {
+	var out []refcar.Block
+	for _, d := range [][]byte{[]byte("first generation, block one"), bytes.Repeat([]byte("first generation, block two "), 9)} {
+		h, _ := refcar.Hash(0x12, d)
+		out = append(out, refcar.Block{Cid: refcar.MakeCidV1(0x55, 0x12, h), Data: d})
+	}
+	return out
+}
+
+// c16FirstGen writes that earlier session (fault-free, on a memfile) and returns the file it left.
+func c16FirstGen(roots []cid.Cid, cfg lab.Cfg) []byte {
+	mf := iofault.New(nil)
+	mf.NoLog = true
+	sc, err := storage.NewReadableWritable(mf, roots, cfg.Opts()...)
+	if err != nil {
+		panic(err)
+	}
+	for _, b := range c16Pre() {
+		if err := sc.Put(bg, string(b.Cid), b.Data); err != nil {
+			panic(err)
+		}
+	}
+	if cfg.Sorted {
+		if err := sc.Finalize(); err != nil {
+			panic(err)
+		}
+	}
+	return mf.Bytes()
 }
 
 func (s *c16Sess) put(b refcar.Block) error {
@@ -147,6 +199,7 @@ func (s *c16Sess) finalize() error {
 	}
 	return s.sc.Finalize()
 }
+
 // finalizeAgain is the caller's second attempt after a failed finalization.
 func (s *c16Sess) finalizeAgain() error {
 	switch {
@@ -198,6 +251,12 @@ func c16Run(t *mon.T, d c16Desc, dir string, roots []cid.Cid, rootsRaw [][]byte,
 	if fired > 0 {
 		viol("open/fault-swallowed", "the writer failed during open but open returned no error")
 		return s.writes()
+	}
+	if strings.HasSuffix(d.Target, "-resumed") {
+		for _, b := range c16Pre() {
+			m.Put(b)
+		}
+		t.Cover("sessions-resuming-an-earlier-file")
 	}
 	allLaterOK := true
 	sawFault := false
@@ -389,14 +448,18 @@ func runC16(t *mon.T, raw json.RawMessage) {
 				lens = append(lens, len(e.Data))
 			}
 		}
-		if s.tap != nil && !(s.dw != nil && d.Cfg.V1) {
+		if s.tap != nil && !(s.dw != nil && d.Cfg.V1) && d.Target != "blockstore-resumed" {
 			// the traced pragma write is not a hooked write (not faultable): drop it
 			lens = lens[1:]
 		}
 		s.close()
 		// trace completeness: replaying the recorded events must give the file
 		if s.tap != nil {
-			img := iofault.Image(nil, evs, len(evs), -1)
+			var initial []byte
+			if d.Target == "blockstore-resumed" {
+				initial = c16FirstGen(roots, d.Cfg) // a resumed session writes no pragma and starts from the earlier file
+			}
+			img := iofault.Image(initial, evs, len(evs), -1)
 			if !bytes.Equal(img, mustRead(s.path)) {
 				t.Violatef("harness/trace-incomplete", "replaying the hook trace does not reproduce the file: the trace misses writes")
 				return
@@ -442,7 +505,7 @@ func runC16(t *mon.T, raw json.RawMessage) {
 
 func genC16(g *mon.G) {
 	r := gen.Rand(g.Seed)
-	targets := []string{"storage-rw", "storage-stream", "deferred-stream", "blockstore", "blockstore-many", "deferred-path", "storage-rw-notrunc"}
+	targets := []string{"storage-rw", "storage-stream", "deferred-stream", "blockstore", "blockstore-many", "deferred-path", "storage-rw-notrunc", "blockstore-resumed", "storage-rw-resumed"}
 	for i := 0; i < g.Pick(150, 1500); i++ {
 		tg := targets[i%len(targets)]
 		cfg := lab.Cfg{StoreID: r.Intn(2) == 0, Sorted: r.Intn(2) == 0}
@@ -477,7 +540,7 @@ func init() {
 		Assumptions: []string{"fault model: a write call accepts k < len bytes and returns an error once (transient)", "for the blockstore the verif hook performs the partial write and returns the error, as a full disk would; its trace is checked for completeness against the file", "for a failing PutMany the blocks of the batch form a maybe-set", "the kernel-made faults (RLIMIT_FSIZE) need no hook at all and validate the hook-made ones"},
 		Gen:         genC16,
 		Run:         runC16,
-		MinCover: map[string]int{"faulted-sessions": 2000, "fault-in:open": 50, "fault-in:put": 500, "fault-in:finalize": 50, "archives-judged-after-fault": 200, "retried-failed-put": 100, "trace-completeness-checked": 5,
+		MinCover: map[string]int{"sessions-resuming-an-earlier-file": 100, "faulted-sessions": 2000, "fault-in:open": 50, "fault-in:put": 500, "fault-in:finalize": 50, "archives-judged-after-fault": 200, "retried-failed-put": 100, "trace-completeness-checked": 5,
 			"target:blockstore": 5, "target:storage-stream": 5, "target:deferred-stream": 5, "target:deferred-path": 5, "target:storage-rw-notrunc": 5, "kernel:put-failed-by-kernel": 50, "kernel:archives-judged-after-fault": 30},
 	})
 }
